@@ -304,7 +304,7 @@ def drv_functional(ctx, k, rng):
 
 
 def _fresh(hedger, names, dtype):
-    h = Hedger(copy.deepcopy(hedger.model), list(names), criterion=copy.deepcopy(hedger.criterion))
+    h = Hedger(copy.deepcopy(hedger.model), [copy.deepcopy(n) if not isinstance(n, str) else n for n in names], criterion=copy.deepcopy(hedger.criterion))
     return h
 
 
@@ -313,6 +313,11 @@ def drv_sequences(ctx, k, rng):
                        ["moneyness", "max_moneyness", "volatility"],
                        ["log_moneyness", "time_to_maturity", "volatility"],
                        ["underlier_spot", "variance", "prev_hedge"]])
+    names = list(names)
+    if rng.random() < 0.35:
+        # a feature with its own parameters, shared by every derivative the hedger is used with
+        names.append(ModuleOutput(torch.nn.Linear(2, 1), ["underlier_spot", "volatility"]))
+        ctx.branch("seq.module_output_feature")
     n_in = len(names)
     model = MultiLayerPerceptron(in_features=n_in, out_features=1, n_layers=2, n_units=5, activation=torch.nn.Tanh())
     crit = pick(rng, [EntropicRiskMeasure(), ExpectedShortfall(0.4)])
@@ -332,13 +337,16 @@ def drv_sequences(ctx, k, rng):
     def use(d):
         dt_ = d.ul().dtype or torch.get_default_dtype()
         hedger.to(dt_)
+        for f_ in hedger.inputs.features:
+            if isinstance(f_, torch.nn.Module):
+                f_.to(dt_)  # FeatureList is not a Module: Hedger.to() does not reach the parameters of module-output features
         if not hasattr(d.ul(), "_buffers") or "spot" not in d.ul()._buffers:
             d.simulate(n_paths=d._n)
 
     L = int(rng.integers(3, 13))
     seq = []
     for _ in range(L):
-        op = pick(rng, ["simulate", "hedge", "pl", "loss", "price", "fit", "to", "hedge", "pl"])
+        op = pick(rng, ["simulate", "hedge", "pl", "loss", "price", "fit", "to", "hedge", "pl", "clause", "payoff_and_features"])
         i = int(rng.integers(3))
         d = ders[i]
         seq.append((op, i))
@@ -347,6 +355,13 @@ def drv_sequences(ctx, k, rng):
         elif op == "to":
             ctx.branch("op.to")
             d.to(pick(rng, [F32, F64]))
+        elif op == "clause":
+            d.add_clause("cap%d" % len(list(d.clauses())), lambda dd, p: p.clamp(max=0.05))
+        elif op == "payoff_and_features":
+            use(d)
+            with torch.no_grad():
+                d.payoff()
+                hedger.inputs.of(d, hedger)  # binds features to another derivative; must not leak into later results
         else:
             use(d)
             if op == "hedge":
@@ -376,7 +391,7 @@ def drv_sequences(ctx, k, rng):
         l1, l2 = hedger.criterion(p1), fresh.criterion(p2)
     ok = bit_equal(h1, h2) and bit_equal(p1, p2) and bit_equal(l1, l2)
     ctx.check(mon, ok, "history_dependence", f"after {seq} the hedger's result on derivative {ders.index(D)} differs from a fresh hedger with the same parameters",
-              sig=(tuple(o for o, _ in seq)[:6], "prev_hedge" in names, type(D).__name__), sequence=seq, used=h1.reshape(-1)[:8], fresh=h2.reshape(-1)[:8])
+              sig=(tuple(o for o, _ in seq)[:6], any(n == "prev_hedge" for n in names if isinstance(n, str)), type(D).__name__), sequence=seq, used=h1.reshape(-1)[:8], fresh=h2.reshape(-1)[:8])
     if k < 4:
         ctx.sample({"driver": "sequences", "inputs": names, "sequence": seq, "derivatives": [repr(d)[:80] for d in ders]})
 
